@@ -16,7 +16,7 @@ import (
 )
 
 func init() {
-	register(&Rule{ID: "R-NAMETOKEN", Floor: 4, Run: ruleNameToken,
+	register(&Rule{ID: "R-NAMETOKEN", Floor: 5, Run: ruleNameToken,
 		Text: "Wherever the parser takes a name from the current token — a function's name, a parameter, a foreach variable or index, a local — that token was tested to be an identifier (current-token test, peek test followed by one advance, or a successful expectation) with no other advance in between; an illegal character or a literal in a name position is an error."})
 	register(&Rule{ID: "R-CONSTDEDUP", Floor: 1, Run: ruleConstDedup,
 		Text: "The constant pool merges two constants only when both their type and their printed form are equal: a string, a regexp, a float and a large integer that print alike stay distinct constants."})
@@ -134,6 +134,7 @@ func ruleNameToken(p *Program, r *Reporter) {
 			}
 		}
 	}
+	postfixOperand(p, r, pr, isIdentConst)
 	if len(sinks) == 0 {
 		r.Undecided("name positions", "-", "no store of a token into a name position of the syntax tree found")
 		return
@@ -147,6 +148,74 @@ func ruleNameToken(p *Program, r *Reporter) {
 			r.Fail(key, p.Pos(s.where), why+": any token — an illegal character, a number, a string — is accepted as the name, so the invalid script is accepted by Prepare")
 		}
 	}
+}
+
+// postfixOperand: ++ and -- name their variable by the token before them
+// (the previous token); that token must have been tested to be an identifier.
+func postfixOperand(p *Program, r *Reporter, pr *parserRoles, isIdent func(ssa.Value) bool) {
+	for _, fn := range pr.all {
+		for _, b := range fn.Blocks {
+			for _, ins := range b.Instrs {
+				st, ok := ins.(*ssa.Store)
+				if !ok || fieldKey(st.Addr) != "ast.PostfixExpression.Token" {
+					continue
+				}
+				key := p.FnName(fn) + "/operand of a postfix operator is an identifier token"
+				// the value: a load of a token field of the parser other than the current token
+				ld, ok := st.Val.(*ssa.UnOp)
+				if !ok {
+					r.Undecided(key, p.Pos(st.Pos()), "the operand token is not loaded from the parser")
+					continue
+				}
+				src := fieldKey(ld.X)
+				good := false
+				for cur := st.Block(); cur.Idom() != nil && !good; cur = cur.Idom() {
+					d := cur.Idom()
+					iff, ok := terminator(d).(*ssa.If)
+					if !ok {
+						continue
+					}
+					bo, ok := iff.Cond.(*ssa.BinOp)
+					if !ok {
+						continue
+					}
+					// <src>.Type == IDENT / != IDENT
+					var other ssa.Value
+					if typeOfToken(bo.X) == src {
+						other = bo.Y
+					} else if typeOfToken(bo.Y) == src {
+						other = bo.X
+					}
+					if other == nil || !isIdent(other) {
+						continue
+					}
+					t, f := d.Succs[0], d.Succs[1]
+					onT := t == st.Block() || t.Dominates(st.Block())
+					onF := f == st.Block() || f.Dominates(st.Block())
+					if (bo.Op == token.EQL && onT && !onF) || (bo.Op == token.NEQ && onF && !onT) {
+						good = true
+					}
+				}
+				r.Check(good, key, p.Pos(st.Pos()), "the token before the operator was tested to be an identifier", "the variable a postfix ++/-- applies to is named by the token before the operator, whatever that token is: `1++;`, `\"s\"--;` and `a[0]++;` are accepted by Prepare (and increment a variable called \"1\", \"s\" or \"]\")")
+			}
+		}
+	}
+}
+
+// typeOfToken: v is a load of <parser token field>.Type; returns the field key.
+func typeOfToken(v ssa.Value) string {
+	ld, ok := v.(*ssa.UnOp)
+	if !ok || ld.Op != token.MUL {
+		return ""
+	}
+	fa, ok := ld.X.(*ssa.FieldAddr)
+	if !ok {
+		return ""
+	}
+	if _, f, ok := fieldOf(fa); !ok || f != "Type" {
+		return ""
+	}
+	return fieldKey(fa.X)
 }
 
 // identGuarded walks backwards from the load of the current token: before any
